@@ -52,6 +52,15 @@ options={"part":"diagonal"}'''),
 m=tpmesh("quadrilateral"); V=FunctionSpace(m,tp("quadrilateral",2)); u,v=TrialFunction(V),TestFunction(V); f=Coefficient(V)
 objs=[f*inner(grad(u),grad(v))*dx]
 options={"sum_factorization":True}'''),
+    # integer-valued tables (facet -> edge -> vertices) and every other reference-geometry table
+    _c("c18_integer_geometry_tables", '''
+m=mesh("tetrahedron"); V=space(m,"P",1); v=TestFunction(V); f=Coefficient(V)
+mh=mesh("hexahedron"); Vh=space(mh,"Q",1); vh=TestFunction(Vh)
+objs=[MinFacetEdgeLength(m)*f*v*ds + MaxFacetEdgeLength(m)*v*ds + MinCellEdgeLength(m)*v*dx + MaxCellEdgeLength(m)*f*v*dx + Circumradius(m)*v*ds,
+      MinFacetEdgeLength(mh)*vh*ds + MaxCellEdgeLength(mh)*vh*dx + FacetArea(mh)*vh*ds + CellVolume(mh)*vh*dx]'''),
+    _c("c18_expression_descriptor_shapes", '''
+m=mesh("triangle"); V=space(m,"P",2,shape=(2,)); f=Coefficient(V); u=TrialFunction(V); k=Constant(m,shape=(2,2))
+objs=[(f, np.array([[0.25,0.25]])), (grad(f)*k, np.array([[0.25,0.25],[0.5,0.125]])), (outer(u,f), np.array([[0.125,0.5]])), (div(f), np.array([[0.5,0.25]]))]'''),
     # tables with the same name and shape but different values in one module (element variants)
     _c("c18_same_table_names_different_values", '''
 m=mesh("triangle")
